@@ -752,6 +752,11 @@ class ProcessStatus:
         :return: True if the process is not defined anywhere anymore.
         """
         del self.info_map[identifier]
+        # the process cannot be considered as running on a Supvisors instance that does not define it anymore
+        self.running_identifiers.discard(identifier)
+        if self.info_map:
+            # re-evaluate the synthetic state based on the remaining information
+            self.update_status(identifier, ProcessStates.STOPPED)
         return self.info_map == {}
 
     def update_status(self, identifier: str, new_state: ProcessStates) -> None:
